@@ -239,6 +239,7 @@ static void os_mac_verify(const Args &a) {
     bytes_t key = a.hex("key"), d = a.hex("in"), tag = a.hex("tag");
     if (key.size() != 16 || tag.size() != 16) fatal("mac_verify sizes");
     if (a.has("flip")) { long long b = a.num("flip"); tag[(size_t)(b / 8)] ^= (uint8_t)(1u << (b % 8)); }
+    if (a.has("xor")) { bytes_t x = a.hex("xor"); for (size_t i = 0; i < x.size() && i < 16; ++i) tag[i] ^= x[i]; }     // several bytes at once
     InBuf kb(key), in(d, a.num("null_if_empty") != 0), tb(tag);
     int ret = ascon_mac_verify(tb.p, in.p, in.n, kb.p);
     Ev ev("os.mac_verify"); ev.b("key", key).b("in", d).b("tag", tag).n("ret", ret); ev.emit();
